@@ -32,7 +32,7 @@ CC_race := clang
 CXX_race := clang++
 CFLAGS_race := -O1 -g -fsanitize=thread -mllvm -tsan-distinguish-volatile $(COV)
 CXXFLAGS_race := -O1 -g -DSIM_RACE=1
-LDFLAGS_race :=
+LDFLAGS_race := -rdynamic -ldl
 
 VARIANTS := asan plain swcrc race
 
@@ -41,13 +41,14 @@ all: asan plain
 
 define VARIANT_RULES
 $(1): $(B)/$(1)/jlssim
-$(B)/$(1)/lib/%.o: $(REPO)/src/%.c sim/seams.map sim/seams_twr.map
+$(B)/$(1)/lib/%.o: $(REPO)/src/%.c sim/seams.map sim/seams_twr.map sim/seams_race.map
 	@mkdir -p $$(dir $$@)
 	$$(CC_$(1)) $$(CFLAGS_$(1)) $(CDEF) $(CINC) -D__FILENAME__='"$$*.c"' -MMD -MP -MT $$@ -MF $$(basename $$@).d -c $$< -o $$@.tmp.o
 	objcopy --redefine-syms=sim/seams.map $$@.tmp.o
 	@if [ "$$*" = "threaded_writer" ]; then objcopy --redefine-syms=sim/seams_twr.map $$@.tmp.o; fi
+	@if [ "$(1)" = "race" ]; then objcopy --redefine-syms=sim/seams_race.map $$@.tmp.o; fi
 	@mv $$@.tmp.o $$@
-$(B)/$(1)/sim/%.o: sim/%.cpp sim/*.h
+$(B)/$(1)/sim/%.o: sim/%.cpp sim/*.h sim/*.inc
 	@mkdir -p $$(dir $$@)
 	$$(CXX_$(1)) -std=c++17 $$(CXXFLAGS_$(1)) -Wall -Wno-unused-function $(CINC) -DJLS_VERIF -DSIM_VARIANT='"$(1)"' -c $$< -o $$@
 $(B)/$(1)/jlssim: $(addprefix $(B)/$(1)/lib/,$(addsuffix .o,$(LIBSRC))) $(addprefix $(B)/$(1)/sim/,$(addsuffix .o,$(SIMSRC))) $$(EXTRA_$(1))
